@@ -38,6 +38,9 @@ package main
 
 import (
 	"fmt"
+	"io/ioutil"
+	"os"
+	"strings"
 	"path/filepath"
 	"sort"
 
@@ -81,6 +84,12 @@ func main() {
 		runLines(xvlib.ReadLines(args.Replay))
 		return
 	}
+	if name := os.Getenv("XV_SCRIPT"); name != "" {
+		g := &Gen{e: ex, r: xvlib.NewRng(args.Seed), out: out, tier: "quick"}
+		g.scripted(name)
+		ioutil.WriteFile(os.Getenv("XV_SCRIPT_OUT"), []byte(strings.Join(g.canon, "\n")+"\n"), 0644)
+		return
+	}
 	// 0. corpus: minimal replays of repaired defects and corner cases, first on every run
 	corpus, _ := filepath.Glob(filepath.Join("corpus", "C13", "*.ops"))
 	sort.Strings(corpus)
@@ -93,11 +102,11 @@ func main() {
 	}
 	g := &Gen{e: ex, r: xvlib.NewRng(args.Seed*1000003 + 13), out: out, tier: args.Tier}
 	// 1. TopSortDFS on arbitrary graphs
-	nraw := 300
-	ncases := 22
-	nsize := 1
+	nraw := 3000
+	ncases := 400
+	nsize := 4
 	if args.Tier == "thorough" {
-		nraw, ncases, nsize = 6000, 320, 8
+		nraw, ncases, nsize = 40000, 2000, 30
 	}
 	if n := xvlib.EnvInt("XV_CASES", 0); n > 0 {
 		ncases = n
